@@ -86,6 +86,17 @@ SplitS(cur, c) == IF c = <<>> THEN <<cur>>
 HashName == <<"L">>
 EffName(t) == IF t.name = <<>> THEN HashName ELSE t.name
 
+\* ALTERNATIVE SOURCES.  The metainfo may carry a second value for the name ("name.utf-8") and for every path
+\* ("path.utf-8"); with the utf8 flag (metainfo.New, resume versions 2 and 3) a NON-EMPTY alternative replaces the plain
+\* value (infoType.overrideUTF8Keys).  at = [name, files, n8 : [has, v], f8 : Seq([has, v])].
+\* The value that is VALIDATED must be the value that is USED: everything below (Accepts, OpenNames, ...) is applied
+\* to Effective(at, utf8); Plain(at) is what a validator running before the override would see.
+Plain(at) == [name |-> at.name, files |-> at.files]
+Effective(at, utf8) ==
+    IF ~utf8 THEN Plain(at)
+    ELSE [name  |-> IF at.n8.has = 1 /\ at.n8.v # <<>> THEN at.n8.v ELSE at.name,
+          files |-> [i \in 1 .. Len(at.files) |-> IF at.f8[i].has = 1 /\ at.f8[i].v # <<>> THEN at.f8[i].v ELSE at.files[i]]]
+
 \* the names handed to Storage.Open (before duplicate detection)
 Joined(t) ==
     LET n == Clean(EffName(t)) IN
